@@ -43,7 +43,7 @@ def gen_and_replay(ctx, gencfg, num, stable, label, extra=()):
         if stable and res["redirects"] > 0:
             ctx.violation("redirection-on-stable-cluster", "%d redirections although the layout never changed" % res["redirects"], art)
         if not stable and not res["migratingAtEnd"] and res["redirectsAfter"] > 0:
-            ctx.violation("no-convergence/" + phase, "%d redirections in the 4th round after the layout settled" % res["redirectsAfter"], art)
+            ctx.violation("no-convergence/" + phase, "%d redirections in the last of up to 40 rounds after the layout settled" % res["redirectsAfter"], art)
         if not (res.get("bad") or res.get("copies") or res.get("execCounts")):
             ctx.cov["traces_validated_against_impl"] += 1
     if good < len(behs) * 0.8:
